@@ -67,8 +67,11 @@ def c09(ctx: Ctx):
         "by type *routers.RouteError and by the Reason of the two exported sentinel errors",
         "open regions excluded from the demands (stated in spec/Router.tla): relative server URL vs absolute request URL; a port other "
         "than a port variable's default; an explicit port against a port-less server URL; a literal template without the method "
-        "next to a templated one with it.  Outside the universe: server-variable enums, scheme variables, whole-URL variables, "
-        "server-side requests (URL without host, Host header) against absolute servers",
+        "next to a templated one with it; a scheme outside the enum of a scheme variable.  Outside the universe: enums of host / "
+        "base-path variables, whole-URL variables",
+        "a request in server form (path-only Request.URL, Request.Host, Request.TLS) is the request URL scheme://host/path in another "
+        "representation: the contract does not look at the form; NewRouter failing on a validated document is a violation "
+        "(Router!BuildFailed)",
     ]
     cases = os.path.join(ctx.scratch, "cases.ndjson")
     open(cases, "w").close()
@@ -80,8 +83,10 @@ def c09(ctx: Ctx):
     else:
         # D (drift guard): the models of the pinned code must still deviate from the contract
         ctx.tlc("MC_C09", "MC_C09_pinned.cfg", expect_violation=True, label="D pinned models deviate (expected)")
-        runs = [("MC_C09_quick.cfg", "exhaustive core", None)] if tier == "quick" else [
+        runs = [("MC_C09_quick.cfg", "exhaustive core", None),
+                ("MC_C09_quick_srv.cfg", "server lists / server variables (1-template core + slice)", None)] if tier == "quick" else [
             ("MC_C09_thorough.cfg", "exhaustive core", None),
+            ("MC_C09_thorough_srv.cfg", "server lists / server variables (design check on all, sliced emission)", None),
             ("MC_C09_thorough_t3.cfg", "exhaustive, 3 templates (sliced emission)", None),
             ("MC_C09_thorough_l3.cfg", "exhaustive, 3 segments (sliced emission)", None),
             # -simulate checks (and so emits) every successor it generates, not only the one it follows: 2 walks per
@@ -136,7 +141,10 @@ def c09(ctx: Ctx):
     ctx.rule = ("documents = template families over segments {a, b, {var}} -- plus a 'mixed' universe of 11 templates with variables "
                 "inside a segment and their literal / plain-variable competitors (/v{n}, /v1, /{x}, /files/report.{ext}, "
                 "/files/report.pdf, /files/{x}, /{p}-{q}, /a-b, /v{n}/a, /v1/{x}, /a/v{n}) -- and a 'root' universe with the template '/' next to /a, /{x}, /a/{x} -- with a method set per template (GET, POST or both), crossed "
-                "with 11 server shapes (none; relative; relative with trailing slash; '/'; absolute; absolute with host and port "
+                "with 11 server shapes -- and in a second generator run (MC_C09_*_srv.cfg; method sets GET / GET+PUT,PATCH,DELETE,HEAD,OPTIONS,TRACE) "
+                "12 more: lists whose entries differ in the scheme / the literal port / the trailing slash only (document and path "
+                "level), a fixed scheme next to a {scheme} enum variable, base-path variables, server variables named like a path "
+                "variable in base path / host / port -- (none; relative; relative with trailing slash; '/'; absolute; absolute with host and port "
                 "variables; two absolute servers; path-level servers on the first / the last template; two servers whose base "
                 "paths are /v1 and /v10, relative and absolute), enumerated by TLC "
                 "(spec/Gen_C09.tla, bounds in spec/MC_C09_*.cfg: BFS for the core, BFS with seeded 1/Slice emission and "
@@ -150,6 +158,8 @@ def c09(ctx: Ctx):
                 "(relative, absolute, path-level) and /my%2Fapi are among the server shapes; the "
                 "requests of a document run in chunks of 16 on one instance of each router, main URLs as GET-then-POST pairs, and "
                 "every route object returned in a chunk is read again after the chunk's last request (held observation); "
+                "server variables at non-default values, scheme-variable values, and the same URLs in server form (Request.Host / "
+                "Request.TLS / path-only URL); "
                 "evaluations = (document, request, router) FindRoute calls judged by TLC; non-trivial = distinct (document, "
                 "request) where at least one router got as far as a template (route, method-not-allowed or panic)")
     ctx.validate("Trace_C09", "Trace_C09.cfg", logp, chunk_lines=max(40, min(700, nlines // 16 + 1)))
